@@ -141,14 +141,15 @@ func MakeProfile(prop string, seed uint64, tier string) *Profile {
 		p.PoolSize = 0
 		p.Tag += "+yield"
 	}
-	if (prop == "C04" || prop == "C03") && r.Chance(1, 16) {
+	forceBulk := os.Getenv("VERIF_FORCE_BULK") // targeted experiments only: "small" or "large"
+	if (prop == "C04" || prop == "C03") && (r.Chance(1, 16) || forceBulk != "") {
 		p.Bulk = 5400 + r.Intn(1200)
 		p.PoolSize = 0
 		p.Tag += "+bulk"
 		if p.MaxCrashes == 0 {
 			p.MaxCrashes = 1
 		}
-		if r.Chance(1, 3) {
+		if (r.Chance(1, 3) && forceBulk != "small") || forceBulk == "large" {
 			p.Bulk = 400 + r.Intn(40)
 			p.BulkBytes = 48 * 1024
 			p.Tag += "-large"
